@@ -17,6 +17,7 @@ def obligations(tier: str) -> list[Ob]:
         ),
         harness_ob(
             "resolvers_ref_equals_inline", "C20_equiv.py", tier, timeout=330 if q else 900, cpus=6,
+            finding_by_func={"reference_keeps_component_default": "C20-F1"},
             encoded=[
                 "openapi_python_client.parser.properties.schemas:parameter_from_reference", "openapi_python_client.parser.properties.schemas:parameter_from_data",
                 "openapi_python_client.parser.openapi:Endpoint.add_parameters", "openapi_python_client.parser.responses:response_from_data",
@@ -28,7 +29,7 @@ def obligations(tier: str) -> list[Ob]:
         harness_ob(
             "dangling_ref_containment", "C08_state.py", tier, funcs=["only_the_failing_model_is_removed"], timeout=240 if q else 900, cpus=2,
             encoded=["openapi_python_client.parser.properties:build_schemas", "openapi_python_client.parser.properties.schemas:Schemas.add_dependencies", "openapi_python_client.parser.properties:_process_model_errors"],
-            bounds={"components": "Shared / Early (failing: dangling ref, array without items or bad default, before or after its reference to Shared) / Late (healthy user of Shared), all 6 declaration orders"},
+            bounds={"components": "Shared / Early (failing: 7 kinds of bad piece, before or after its reference to Shared) / Late (healthy user of Shared), all 6 declaration orders"},
         ),
         Ob("replay_ref_inline_twins", "vlib.replay_checks:ref_inline_twins", {}, timeout_s=600, engine="replay", cpus=1),
     ]
